@@ -86,8 +86,56 @@ type typestate struct {
 	step func(state int, ev tsEvent) (int, string)
 	// edge, if set, refines the state along the i-th successor of a block.
 	edge func(b *cfg.Block, succ int, state int) int
-	// noReturn tells that the block's last node never returns (fatal)
-	info *types.Info
+	// condLeaf, if set, makes conditions short-circuit aware: the last node of a two-way block is
+	// decomposed along && / || / !, each leaf's events are applied in evaluation order and condLeaf
+	// refines the state for the outcome (true/false) of that leaf.  go/cfg keeps a && b as one node.
+	condLeaf func(leaf ast.Expr, state int, truth bool) int
+	info     *types.Info
+}
+
+type condOut struct {
+	st    int
+	truth bool
+}
+
+// evalCond returns the possible (state, truth) pairs after evaluating e from state st.
+func (t *typestate) evalCond(e ast.Expr, st int, errs *[]tsError, seen map[string]bool) []condOut {
+	e = ast.Unparen(e)
+	switch x := e.(type) {
+	case *ast.BinaryExpr:
+		if x.Op == token.LAND || x.Op == token.LOR {
+			var out []condOut
+			for _, l := range t.evalCond(x.X, st, errs, seen) {
+				if (x.Op == token.LAND && !l.truth) || (x.Op == token.LOR && l.truth) {
+					out = append(out, l)
+					continue
+				}
+				out = append(out, t.evalCond(x.Y, l.st, errs, seen)...)
+			}
+			return out
+		}
+	case *ast.UnaryExpr:
+		if x.Op == token.NOT {
+			var out []condOut
+			for _, l := range t.evalCond(x.X, st, errs, seen) {
+				out = append(out, condOut{l.st, !l.truth})
+			}
+			return out
+		}
+	}
+	cur := st
+	for _, ev := range t.events(e) {
+		nx, msg := t.step(cur, ev)
+		if msg != "" {
+			k := fmt.Sprintf("%d|%s", ev.node.Pos(), msg)
+			if !seen[k] {
+				seen[k] = true
+				*errs = append(*errs, tsError{ev.node.Pos(), msg})
+			}
+		}
+		cur = nx
+	}
+	return []condOut{{t.condLeaf(e, cur, true), true}, {t.condLeaf(e, cur, false), false}}
 }
 
 type tsResult struct {
@@ -119,7 +167,15 @@ func (t *typestate) run() tsResult {
 				continue
 			}
 			cur := s
-			for _, n := range b.Nodes {
+			nodes := b.Nodes
+			var condExpr ast.Expr
+			if t.condLeaf != nil && len(b.Succs) == 2 && len(nodes) > 0 {
+				if ce, ok := nodes[len(nodes)-1].(ast.Expr); ok {
+					condExpr = ce
+					nodes = nodes[:len(nodes)-1]
+				}
+			}
+			for _, n := range nodes {
 				for _, ev := range t.events(n) {
 					nx, msg := t.step(cur, ev)
 					if msg != "" {
@@ -134,6 +190,22 @@ func (t *typestate) run() tsResult {
 			}
 			if len(b.Succs) == 0 {
 				exitMask |= 1 << uint(cur)
+			}
+			if condExpr != nil {
+				for _, co := range t.evalCond(condExpr, cur, &res.errs, seenErr) {
+					i := 1
+					if co.truth {
+						i = 0
+					}
+					st := co.st
+					if t.edge != nil {
+						st = t.edge(b, i, st)
+					}
+					if st >= 0 {
+						outs[i] |= 1 << uint(st)
+					}
+				}
+				continue
 			}
 			for i := range b.Succs {
 				st := cur
